@@ -87,6 +87,17 @@ func (s *stallConn) Close() error {
 	return s.Conn.Close()
 }
 
+// blackholeConn drops every inbound datagram (a firewall between server and client).
+type blackholeConn struct{ *net.UDPConn }
+
+func (b *blackholeConn) ReadFrom(buf []byte) (int, net.Addr, error) {
+	for {
+		if _, _, err := b.UDPConn.ReadFrom(buf); err != nil {
+			return 0, nil, err
+		}
+	}
+}
+
 func (p *clientPeer) addPort(proto string, port int) {
 	p.pmu.Lock()
 	if p.ports == nil {
@@ -119,6 +130,9 @@ func (p *clientPeer) init(readTimeout, writeTimeout time.Duration) {
 		p.c.Protocol = new(gortsplib.ProtocolUDP)
 	case "mcast":
 		p.c.Protocol = new(gortsplib.ProtocolUDPMulticast)
+	case "auto":
+		p.c.Protocol = nil // UDP first; the client switches to TCP by itself (internal reset paths)
+		p.c.InitialUDPReadTimeout = 150 * time.Millisecond
 	default:
 		p.c.Protocol = new(gortsplib.ProtocolTCP)
 	}
@@ -141,6 +155,11 @@ func (p *clientPeer) init(readTimeout, writeTimeout time.Duration) {
 		pc, err := net.ListenPacket(network, address)
 		if err == nil {
 			p.addPort("udp", pc.LocalAddr().(*net.UDPAddr).Port)
+			if p.sc.Blackhole {
+				if uc, ok := pc.(*net.UDPConn); ok {
+					return &blackholeConn{UDPConn: uc}, nil
+				}
+			}
 		}
 		return pc, err
 	}
@@ -229,6 +248,9 @@ func (p *clientPeer) do(step int) error {
 		}
 		start := p.packets.Load()
 		deadline := time.Now().Add(400 * time.Millisecond)
+		if p.spec.Proto == "auto" {
+			deadline = time.Now().Add(2500 * time.Millisecond) // the switch to TCP happens inside the client
+		}
 		for p.packets.Load() < start+4 && time.Now().Before(deadline) {
 			select {
 			case <-p.co.closeDone:
@@ -330,21 +352,25 @@ func (p *clientPeer) run() {
 // ---- raw peers: hand-written RTSP over a TCP socket
 
 type rawPeer struct {
-	spec     PeerSpec
-	addr     string
-	co       *coord
-	delay    time.Duration
-	done     chan struct{} // mcast2: closed when the racing SETUP was answered or failed
-	seed     uint64
-	frames   atomic.Int64 // interleaved frames / UDP packets received
-	udp      [2]net.PacketConn
-	flowWait time.Duration
-	flow     string // non-empty: packets did not flow when they had to
-	ops      []string
-	conn     net.Conn
-	br       *bufio.Reader
-	notes    []string
-	played   bool
+	spec      PeerSpec
+	addr      string
+	co        *coord
+	delay     time.Duration
+	done      chan struct{} // mcast2: closed when the racing SETUP was answered or failed
+	seed      uint64
+	frames    atomic.Int64 // interleaved frames / UDP packets received
+	udp       [2]net.PacketConn
+	flowWait  time.Duration
+	udpAll    []net.PacketConn
+	backCount func() int64 // back-channel packet callbacks seen by the server handler
+	late      string       // non-empty: a late datagram reached a callback
+	lateSend  func()       // sends a few more datagrams from the back-channel address
+	flow      string       // non-empty: packets did not flow when they had to
+	ops       []string
+	conn      net.Conn
+	br        *bufio.Reader
+	notes     []string
+	played    bool
 }
 
 func (r *rawPeer) request(method, url string, cseq int, extra string) (map[string]string, error) {
@@ -460,6 +486,8 @@ func (r *rawPeer) run() error {
 		return nil
 	case "redun-play-tcp", "redun-play-udp", "redun-record-tcp":
 		return r.redundant(base)
+	case "backchan-udp":
+		return r.backchan(base)
 	case "stall":
 		if _, err = r.request("OPTIONS", base, 1, ""); err != nil {
 			return err
@@ -563,5 +591,8 @@ func (r *rawPeer) close() {
 		if pc != nil {
 			pc.Close()
 		}
+	}
+	for _, pc := range r.udpAll {
+		pc.Close()
 	}
 }
